@@ -255,6 +255,16 @@ func (x *Exec) applySpec(s *State, spec *FuncSpec, evName string, vars map[strin
 		v := post.eval(mustParse(m.Text))
 		s.assume(post.invOf(v, ""))
 	}
+	for _, m := range spec.Establishes {
+		guard := "true"
+		target := m.Text
+		if i := strings.Index(m.Text, "==>"); i >= 0 {
+			guard = post.evalBool(mustParse(strings.TrimSpace(m.Text[:i])))
+			target = strings.TrimSpace(m.Text[i+3:])
+		}
+		v := post.eval(mustParse(target))
+		s.assume(sImp(guard, post.invOf(v, "")))
+	}
 	return res
 }
 
